@@ -167,9 +167,12 @@ func (l *lagReader) Get(ctx context.Context, key client.ObjectKey, obj client.Ob
 	var hist []*unstructured.Unstructured
 	if ok {
 		hist = append(hist, e.history...)
+	} else {
+		// The object was removed: a lagging cache may still hold it.
+		hist = append(hist, s.graveyard[k]...)
 	}
 	s.mu.Unlock()
-	if !ok || len(hist) == 0 {
+	if len(hist) == 0 {
 		return l.c.Get(ctx, key, obj, opts...)
 	}
 	i := l.pick(k, len(hist))
